@@ -51,6 +51,13 @@ Section Spec.
         else yield_spec c limit (S k) sts rest
     end.
 
+  (* rows that are neither validated nor dropped: beyond the header, returned unchanged *)
+  Fixpoint passthrough (c : cid CS) (j : nat) (raws : list (list text)) : list out :=
+    match raws with
+    | [] => []
+    | row :: rest => if Nat.ltb (c_header c) j then ORow row :: passthrough c (S j) rest else passthrough c (S j) rest
+    end.
+
   Fixpoint count_rows (os : list out) : nat := match os with [] => 0 | ORow _ :: t => S (count_rows t) | OErr _ :: t => count_rows t end.
   Fixpoint count_errs (os : list out) : nat := match os with [] => 0 | OErr _ :: t => S (count_errs t) | ORow _ :: t => count_errs t end.
 End Spec.
